@@ -173,24 +173,29 @@ Definition seqp (p q : prim) : prim := fun d =>
 Definition transfer (from to : addr) (v : N) : prim := seqp (sub_balance from v) (add_balance to v).
 
 (* ---------- journalled state ---------- *)
-Record state := mkState {
+Record state := mkStateG {
   dat : data;
   journal : list entry;            (* newest first *)
   revs : list (N * nat);           (* validRevisions, newest first: (id, journal length) *)
   next_rev : N;
   thash : N;
   txindex : N;
-  oracle : list addr }.            (* addresses of the contracts created next *)
+  oracle : list addr;              (* addresses of the contracts created next (and forced out-of-gas marks) *)
+  gas : N }.                       (* gas left in the frame that is running *)
 
-Definition with_dat s d j := mkState d j (revs s) (next_rev s) (thash s) (txindex s) (oracle s).
+(* a state whose gas never runs out (the gas-free reading of the model) *)
+Definition big_gas : N := 2 ^ 200.
+Definition mkState d j r n th ti o := mkStateG d j r n th ti o big_gas.
+
+Definition with_dat s d j := mkStateG d j (revs s) (next_rev s) (thash s) (txindex s) (oracle s) (gas s).
 
 Definition push (p : prim) (s : state) : state :=
   let '(es, d) := p (dat s) in with_dat s d (es ++ journal s).
 
 Definition snapshot (s : state) : N * state :=
   (next_rev s,
-   mkState (dat s) (journal s) ((next_rev s, length (journal s)) :: revs s) (next_rev s + 1)
-           (thash s) (txindex s) (oracle s)).
+   mkStateG (dat s) (journal s) ((next_rev s, length (journal s)) :: revs s) (next_rev s + 1)
+           (thash s) (txindex s) (oracle s) (gas s)).
 
 Fixpoint find_rev (id : N) (r : list (N * nat)) : option (nat * list (N * nat)) :=
   match r with
@@ -204,17 +209,17 @@ Definition revert (id : N) (s : state) : option state :=
   | None => None
   | Some (n, r) =>
       let k := (length (journal s) - n)%nat in
-      Some (mkState (undo_list (firstn k (journal s)) (dat s)) (skipn k (journal s)) r
-                    (next_rev s) (thash s) (txindex s) (oracle s))
+      Some (mkStateG (undo_list (firstn k (journal s)) (dat s)) (skipn k (journal s)) r
+                    (next_rev s) (thash s) (txindex s) (oracle s) (gas s))
   end.
 
 (* AccountDB.Prepare after the repair (fix commit): the transient storage is reset with the access list.
    [prepare_old] is the code as it was. *)
 Definition prepare_old (th ti : N) (s : state) : state :=
-  mkState (set_acl (dat s) (fun _ => false)) (journal s) (revs s) (next_rev s) th ti (oracle s).
+  mkStateG (set_acl (dat s) (fun _ => false)) (journal s) (revs s) (next_rev s) th ti (oracle s) (gas s).
 
 Definition prepare (th ti : N) (s : state) : state :=
-  mkState (set_tstor (set_acl (dat s) (fun _ => false)) (fun _ _ => 0)) (journal s) (revs s) (next_rev s) th ti (oracle s).
+  mkStateG (set_tstor (set_acl (dat s) (fun _ => false)) (fun _ _ => 0)) (journal s) (revs s) (next_rev s) th ti (oracle s) (gas s).
 
 (* ---------- programs ---------- *)
 Inductive callkind := KCall | KCallCode | KDelegate | KStatic.
@@ -241,7 +246,14 @@ Inductive endmode :=
 | EInvalid
 | ESelfdestruct (beneficiary : addr).
 
-Record prog := mkProg { acts : list action; fin : endmode }.
+(* Static gas of the byte code an action compiles to (measured on the real interpreter by the harness): [pre] up to and
+   including the constant gas of the effecting opcode, [post] for the opcodes after it; [req] = the gas operand of a
+   call. fcost: the same for the terminator. plen: length of the byte code when deployed (code deposit). An empty
+   cost list means free actions: with big_gas that is the gas-free reading of the model. *)
+Definition acost : Type := N * N * N.
+Record prog := mkProgG { acts : list action; fin : endmode; pcost : list acost; fcost : N * N; plen : N }.
+Definition mkProg (a : list action) (f : endmode) : prog := mkProgG a f [] (0, 0) 0.
+Definition free_cost : acost := (0, 0, big_gas).
 
 Definition lookup (progs : list prog) (c : N) : option prog :=
   match c with 0 => None | _ => nth_error progs (N.to_nat (c - 1)) end.
@@ -291,9 +303,9 @@ Definition is_custom (a : action) : bool :=
   match a with AStake _ | AUnstake _ | AUnstakeAll | AAuthCall _ _ _ => true | _ => false end.
 
 Definition ret_code (p : option prog) : N :=
-  match p with Some (mkProg _ (EReturn c)) => c | _ => 0 end.
+  match p with Some q => match fin q with EReturn c => c | _ => 0 end | None => 0 end.
 Definition ret_big (p : option prog) : bool :=
-  match p with Some (mkProg _ EReturnBig) => true | _ => false end.
+  match p with Some q => match fin q with EReturnBig => true | _ => false end | None => false end.
 
 Definition max_depth := 1024.
 Definition wrap64 (n : N) : N := n mod 18446744073709551616.
@@ -302,7 +314,7 @@ Definition precompile (a : addr) : option bool :=
   if a =? 21 then Some true else if a =? 22 then Some false else None.
 
 Definition with_oracle (s : state) (o : list addr) : state :=
-  mkState (dat s) (journal s) (revs s) (next_rev s) (thash s) (txindex s) o.
+  mkStateG (dat s) (journal s) (revs s) (next_rev s) (thash s) (txindex s) o (gas s).
 
 Definition pop_oracle (s : state) : N * state :=
   match oracle s with
@@ -321,6 +333,45 @@ Definition min_stake := 400.
 Definition reg_stake (d : data) (a : addr) : N := state_of d REG (2 * a).
 Definition reg_status (d : data) (a : addr) : N := state_of d REG (2 * a + 1).   (* 0 none, 1 normal, 2 abort *)
 
+(* ---------- gas ---------- *)
+Definition with_gas (s : state) (g : N) : state :=
+  mkStateG (dat s) (journal s) (revs s) (next_rev s) (thash s) (txindex s) (oracle s) g.
+
+(* state-dependent gas of the fork under test (dev configuration: every proposal active; Proposal026 multiplies the
+   constant gas of every opcode and the memory / log / code-deposit fees by 30, but not the surcharges below) *)
+Definition c_value := 9000.          (* CallValueTransferGas *)
+Definition c_newacct := 25000.       (* CallNewAccountGas / CreateBySelfdestructGas *)
+Definition c_stipend := 2300.        (* CallStipend *)
+Definition c_authvalue := 6700.      (* AuthCallValueTransferGas *)
+Definition c_cold := 2500.           (* ColdAccountAccessCostEIP2929 - WarmStorageReadCostEIP2929 (gasAuthCall) *)
+Definition c_deposit := 6000.        (* CreateDataGas * GasMagnification, per byte of deployed code *)
+Definition pc_gas (a : addr) : N := if a =? 21 then 15 else 0.   (* RequiredGas on empty input: identity 15, blake2F 0 *)
+
+(* AccountDB.Empty for the accounts of the universe (see Harness.v for the caveat about storage-only accounts) *)
+Definition empty_of (d : data) (a : addr) : bool :=
+  match objs d a with
+  | None => true
+  | Some o => (a_nonce o =? 0) && (a_code o =? 0)
+  end.
+
+Definition charge (c : N) (s : state) : option state :=
+  if gas s <? c then None else Some (with_gas s (gas s - c)).
+
+(* gasCall / gasCallCode: what is charged on top of the forwarded gas *)
+Definition call_base (kind : callkind) (target : addr) (value : N) (d : data) : N :=
+  match kind with
+  | KCall => if value =? 0 then 0 else c_value + (if empty_of d target then c_newacct else 0)
+  | KCallCode => if value =? 0 then 0 else c_value
+  | _ => 0
+  end.
+Definition call_stipend (kind : callkind) (value : N) : N :=
+  match kind with
+  | KCall | KCallCode => if value =? 0 then 0 else c_stipend
+  | _ => 0
+  end.
+(* callGas: all but one 64th of what is left, or the requested amount if smaller *)
+Definition forward (req avail : N) : N := N.min req (avail - avail / 64).
+
 Section Exec.
   Variable progs : list prog.
   (* the interpreter on the callee's code, with less fuel *)
@@ -335,7 +386,7 @@ Section Exec.
     | OFuel => (OFuel, [], s)
     | OPanic => (OPanic, [], s)
     | _ => match revert id s with
-           | Some s' => (o, l', s')
+           | Some s' => (o, l', match o with ORevert => s' | _ => with_gas s' 0 end)   (* "if err != ErrExecutionReverted { gas = 0 }" *)
            | None => (OPanic, [], s)
            end
     end.
@@ -345,7 +396,8 @@ Section Exec.
   Definition run_target (cx' : ctx) (codeaddr : addr) (s : state) : rres :=
     match precompile codeaddr with
     | Some ok => let '(f, s') := pop_oracle s in
-                 ((if ok && (f =? 0) then OOk else OErr err_precompile), [], s')
+                 if gas s' <? pc_gas codeaddr then (OErr err_oog, [], with_gas s' 0)
+                 else ((if ok && (f =? 0) then OOk else OErr err_precompile), [], with_gas s' (gas s' - pc_gas codeaddr))
     | None => rec cx' (code_of (dat s) codeaddr) s
     end.
 
@@ -408,20 +460,21 @@ Section Exec.
         let s1 := push (set_nonce (self cx) (wrap64 (nonce_of (dat s0) (self cx) + 1))) s0 in
         let s2 := push (acl_add address) s1 in
         if negb (nonce_of (dat s2) address =? 0) || negb (code_of (dat s2) address =? 0)
-        then (OErr err_collision, [], s2)
+        then (OErr err_collision, [], with_gas s2 0)
         else
           let id := fst (snapshot s2) in
           let s3 := snd (snapshot s2) in
           let s4 := push (get_or_new address) s3 in
           let s5 := push (set_nonce address 1) s4 in
           let s6 := push (transfer (self cx) address value) s5 in
-          let deposit_fails := hd 0 (oracle s6) =? 1000 in
+          let forced := hd 0 (oracle s6) =? 1000 in
           let '(o, l, s7) := rec (mkCtx address (static cx) (depth cx + 1) (origin cx)) init s6 in
           match o with
           | OOk =>
+              let deposit := match lookup progs (ret_code (lookup progs init)) with Some q => plen q * c_deposit | None => 0 end in
               if ret_big (lookup progs init) then finish_call id true (OErr err_codesize, l, s7)
-              else if deposit_fails then (OCodeStore, l, s7)          (* no RevertToSnapshot on this error *)
-              else (OOk, l, push (set_code address (ret_code (lookup progs init))) s7)
+              else if forced || (gas s7 <? deposit) then (OCodeStore, l, s7)   (* no RevertToSnapshot, the gas left is handed back *)
+              else (OOk, l, push (set_code address (ret_code (lookup progs init))) (with_gas s7 (gas s7 - deposit)))
           | _ => finish_call id true (o, l, s7)
           end
     end.
@@ -467,77 +520,135 @@ Section Exec.
     if reg_status (dat s) a =? 0 then None
     else let m := reg_stake (dat s) a in Some (escrow_add a (m * unit18) (take_stake a m s)).
 
-  Definition finish (cx : ctx) (f : endmode) (clogs : list log) (s : state) : rres :=
-    if static cx && fin_writes f then (OErr err_write_protection, [], s)
-    else match f with
-    | EStop | EReturn _ | EReturnBig => (OOk, clogs, s)
-    | ERevert => (ORevert, clogs, s)
-    | EInvalid => (OErr err_invalid, [], s)
-    | ESelfdestruct b => (OOk, clogs, do_selfdestruct cx b s)
+  Definition oog (s : state) : rres := (OErr err_oog, [], s).
+
+  (* the terminator: its byte code before the last step (memory work), the write-protection test, the opcode *)
+  Definition finish (cx : ctx) (f : endmode) (fc : N * N) (clogs : list log) (s : state) : rres :=
+    match charge (fst fc) s with
+    | None => oog s
+    | Some s =>
+      if static cx && fin_writes f then (OErr err_write_protection, [], s)
+      else match f with
+      | EStop | EReturn _ | EReturnBig =>
+          match charge (snd fc) s with Some s' => (OOk, clogs, s') | None => oog s end
+      | ERevert =>
+          match charge (snd fc) s with Some s' => (ORevert, clogs, s') | None => oog s end
+      | EInvalid => (OErr err_invalid, [], s)
+      | ESelfdestruct b =>
+          (* gasSelfdestruct: 5000 (in the static part) + 25000 when the beneficiary is empty and value moves *)
+          let dyn := if empty_of (dat s) b && negb (bal (dat s) (self cx) =? 0) then c_newacct else 0 in
+          match charge (snd fc + dyn) s with
+          | Some s' => (OOk, clogs, do_selfdestruct cx b s')
+          | None => oog s
+          end
+      end
     end.
 
   Definition tick (lc : loc) : loc :=
     mkLoc (l_created lc) (l_auth lc) (match l_fate lc with Some (S k) => Some k | x => x end).
 
-  (* the result of a sub-frame seen by the frame that issued it *)
-  Definition after_sub (r : rres) (k : list log -> state -> rres) (clogs : list log) : rres :=
+  (* the result of a sub-frame seen by the frame that issued it: the gas that comes back is added to what the frame
+     kept, then the rest of the action's byte code is paid *)
+  Definition after_sub (r : rres) (keep post : N) (k : list log -> state -> rres) (clogs : list log) : rres :=
     let '(o, lg, s') := r in
     match o with
     | OFuel => (OFuel, [], s')
     | OPanic => (OPanic, [], s')
-    | _ => k (clogs ++ lg) s'
+    | _ => match charge post (with_gas s' (keep + gas s')) with
+           | Some s'' => k (clogs ++ lg) s''
+           | None => oog s'
+           end
     end.
 
-  (* the interpreter loop over the straight-line program *)
-  Fixpoint run_acts (cx : ctx) (lc : loc) (l : list action) (f : endmode) (clogs : list log) (s : state) : rres :=
+  (* an action without a sub-frame: effect, then the rest of its byte code *)
+  Definition after_eff (post : N) (k : state -> rres) (s1 : state) : rres :=
+    match charge post s1 with
+    | Some s2 => k s2
+    | None => oog s1
+    end.
+
+  (* the interpreter loop over the straight-line program; cs = the static costs of the actions, in step *)
+  Fixpoint run_acts (cx : ctx) (lc : loc) (l : list action) (cs : list acost) (f : endmode) (fc : N * N)
+           (clogs : list log) (s : state) : rres :=
     match l_fate lc with
-    | Some O => (OErr err_oog, [], s)                 (* out of gas here *)
+    | Some O => oog s                                  (* forced out of gas (oracle) *)
     | _ =>
     match l with
-    | [] => finish cx f clogs s
+    | [] => finish cx f fc clogs s
     | a :: rest =>
         let lc := tick lc in
+        let '(pre, post, req) := hd free_cost cs in
+        let cs' := tl cs in
+        match charge pre s with
+        | None => oog s
+        | Some s =>
         if static cx && refused_static a then (OErr err_write_protection, [], s)
         else match a with
-        | ASstore k v => run_acts cx lc rest f clogs (push (set_state (self cx) k v) s)
+        | ASstore k v =>
+            after_eff post (run_acts cx lc rest cs' f fc clogs) (push (set_state (self cx) k v) s)
         | ALog t =>
             let lg := mkLog (self cx) t (thash s) (txindex s) (logsize (dat s)) in
-            run_acts cx lc rest f (clogs ++ [lg]) (push (add_log (thash s) lg) s)
+            after_eff post (run_acts cx lc rest cs' f fc (clogs ++ [lg])) (push (add_log (thash s) lg) s)
         | ALogT k =>
             let lg := mkLog (self cx) (tstor (dat s) (self cx) k) (thash s) (txindex s) (logsize (dat s)) in
-            run_acts cx lc rest f (clogs ++ [lg]) (push (add_log (thash s) lg) s)
+            after_eff post (run_acts cx lc rest cs' f fc (clogs ++ [lg])) (push (add_log (thash s) lg) s)
         | ATstore k v =>
             if static cx then (OErr err_write_protection, [], s)       (* opTstore guards itself *)
-            else run_acts cx lc rest f clogs (push (set_transient (self cx) k v) s)
+            else after_eff post (run_acts cx lc rest cs' f fc clogs) (push (set_transient (self cx) k v) s)
         | ACall kind target value =>
-            after_sub (do_call cx kind target value s) (run_acts cx lc rest f) clogs
+            let base := call_base kind target value (dat s) in
+            if gas s <? base then oog s
+            else
+              let avail := gas s - base in
+              let fwd := forward req avail in
+              after_sub (do_call cx kind target value (with_gas s (fwd + call_stipend kind value)))
+                        (avail - fwd) post (run_acts cx lc rest cs' f fc) clogs
         | ACallCreated kind value =>
-            after_sub (do_call cx kind (l_created lc) value s) (run_acts cx lc rest f) clogs
+            let target := l_created lc in
+            let base := call_base kind target value (dat s) in
+            if gas s <? base then oog s
+            else
+              let avail := gas s - base in
+              let fwd := forward req avail in
+              after_sub (do_call cx kind target value (with_gas s (fwd + call_stipend kind value)))
+                        (avail - fwd) post (run_acts cx lc rest cs' f fc) clogs
         | ACreate value init =>
-            let '(o, lg, s') := do_create cx value init s in
+            let fwd := gas s - gas s / 64 in
+            let '(o, lg, s') := do_create cx value init (with_gas s fwd) in
             let created := match o with
                            | OOk => match oracle s with x :: _ => x | [] => 0 end
                            | _ => 0
                            end in
-            after_sub (o, lg, s') (run_acts cx (mkLoc created (l_auth lc) (l_fate lc)) rest f) clogs
-        | AStake t => run_acts cx lc rest f clogs (do_stake cx t s)
-        | AUnstake t => run_acts cx lc rest f clogs (do_unstake cx t s)
+            after_sub (o, lg, s') (gas s / 64) post (run_acts cx (mkLoc created (l_auth lc) (l_fate lc)) rest cs' f fc) clogs
+        | AStake t => after_eff post (run_acts cx lc rest cs' f fc clogs) (do_stake cx t s)
+        | AUnstake t => after_eff post (run_acts cx lc rest cs' f fc clogs) (do_unstake cx t s)
         | AUnstakeAll =>
             match do_unstakeall cx s with
-            | Some s' => run_acts cx lc rest f clogs s'
+            | Some s' => after_eff post (run_acts cx lc rest cs' f fc clogs) s'
             | None => (OErr err_custom, [], s)
             end
         | AAuth inv authority =>
-            run_acts cx (mkLoc (l_created lc) (if self cx =? inv then Some authority else None) (l_fate lc)) rest f clogs s
+            after_eff post (run_acts cx (mkLoc (l_created lc) (if self cx =? inv then Some authority else None) (l_fate lc)) rest cs' f fc clogs) s
         | AAuthCall n target value =>
-            let s0 := push (acl_add target) s in                       (* gasAuthCall *)
-            match l_auth lc with
-            | None => run_acts cx lc rest f clogs s0
-            | Some authority =>
-                if nonce_of (dat s0) authority =? n
-                then after_sub (do_authcall cx authority target value s0) (run_acts cx lc rest f) clogs
-                else run_acts cx lc rest f clogs s0
-            end
+            (* gasAuthCall: cold-account surcharge (and the access-list entry), value and new-account surcharges, then
+               the forwarded gas - charged whether or not the call is made: opAuthCall's early exits do not hand it back *)
+            let base := (if acl (dat s) target then 0 else c_cold)
+                        + (if value =? 0 then 0 else c_authvalue + (if empty_of (dat s) target then c_newacct else 0)) in
+            let s0 := push (acl_add target) s in
+            if gas s0 <? base then oog s0
+            else
+              let avail := gas s0 - base in
+              let fwd := forward req avail in
+              let burnt := with_gas s0 (avail - fwd) in
+              match l_auth lc with
+              | None => after_eff post (run_acts cx lc rest cs' f fc clogs) burnt
+              | Some authority =>
+                  if nonce_of (dat s0) authority =? n
+                  then after_sub (do_authcall cx authority target value (with_gas s0 fwd))
+                                 (avail - fwd) post (run_acts cx lc rest cs' f fc) clogs
+                  else after_eff post (run_acts cx lc rest cs' f fc clogs) burnt
+              end
+        end
         end
     end
     end.
@@ -547,7 +658,7 @@ Section Exec.
     match lookup progs c with
     | None => (OOk, [], s)
     | Some p => let '(x, s') := pop_oracle s in
-                run_acts cx (mkLoc 0 None (fate_of x)) (acts p) (fin p) [] s'
+                run_acts cx (mkLoc 0 None (fate_of x)) (acts p) (pcost p) (fin p) (fcost p) [] s'
     end.
 End Exec.
 
@@ -561,7 +672,8 @@ Fixpoint run (progs : list prog) (fuel : nat) (cx : ctx) (c : N) (s : state) : r
 (* TNone: a transaction kind that does not run the EVM (the block loop still calls Prepare for it) *)
 Inductive txkind := TCall (target : addr) (value : N) | TCreate (value : N) (init : N) | TNone.
 
-Record tx := mkTx { t_hash : N; t_index : N; t_origin : addr; t_kind : txkind; t_oracle : list addr }.
+Record tx := mkTxG { t_hash : N; t_index : N; t_origin : addr; t_kind : txkind; t_oracle : list addr; t_gas : N }.
+Definition mkTx h i o k orc := mkTxG h i o k orc big_gas.
 
 Definition exec_top (progs : list prog) (fuel : nat) (t : tx) (s : state) : rres :=
   let cx := mkCtx (t_origin t) false 0 (t_origin t) in
@@ -572,4 +684,4 @@ Definition exec_top (progs : list prog) (fuel : nat) (t : tx) (s : state) : rres
   end.
 
 Definition exec_tx (progs : list prog) (fuel : nat) (t : tx) (s : state) : rres :=
-  exec_top progs fuel t (with_oracle (prepare (t_hash t) (t_index t) s) (t_oracle t)).
+  exec_top progs fuel t (with_gas (with_oracle (prepare (t_hash t) (t_index t) s) (t_oracle t)) (t_gas t)).
